@@ -409,7 +409,8 @@ class Ctx:
             os.makedirs(evdir, exist_ok=True)
         with open(os.path.join(evdir, self.pid + ".json"), "w") as f:
             json.dump(ev, f, indent=1, default=str)
-        shutil.rmtree(self.build, ignore_errors=True)
+        if not os.environ.get("VERIF_KEEP_BUILD"):      # debugging aid: keep the binaries and traces
+            shutil.rmtree(self.build, ignore_errors=True)
         for key, what, path in self.violations:
             print("VIOLATION property=%s replay=%s" % (self.pid, path))
             print("  what: %s" % what)
